@@ -17,8 +17,10 @@ CLAIMS = {
     'C02': ('proof', 'canonicity theorem for the model invariant (DDProps/C02) + preservation by the modelled operations + exact-state correspondence; routes oracle on the real code', 'Lean 4 proof + differential correspondence'),
     'C03': ('proof', 'quantification on the model (DDProps/C03) tied by exhaustive 3-variable correspondence', 'Lean 4 proof + differential correspondence'),
     'C04': ('proof', 'cofactor/compose/rename on the model (DDProps/C04) tied by exhaustive 3-variable correspondence', 'Lean 4 proof + differential correspondence'),
+    'C05': ('proof', 'Lean model of the lexer (driven by the regenerated token tables) and a Pratt parser parametrised by the regenerated precedence table; print/parse round trip proved for every syntax tree, precedence table = documented table by decide, add_expr = bottom-up evaluation of the tree read, to_expr text = ite-unfolding; PLY/astutils tied by exhaustive short token strings and generated formulas; the semantic half (meaning of the evaluated tree) is stated, its pieces are the C01/C03/C04 theorems', 'Lean 4 proof + regenerated tables + differential correspondence'),
     'C06': ('proof', 'reference-count invariant and collection theorems on the model (DDProps/C06) tied by exhaustive short op sequences and long histories with exact state incl. counts, min_free, cache', 'Lean 4 proof + differential correspondence'),
     'C07': ('proof', 'swap/sifting/sort model with recorded set orders; theorems in DDProps/C07; exact-state correspondence', 'Lean 4 proof + differential correspondence'),
+    'C08': ('proof', 'handle-registry model of dd.autoref (every method = membership tests + core op + wrap; temporaries of <= < succ low high as explicit wrap/drop pairs; drop = __del__) with the count equation ref = in-degree + live handles proved for the registry operations and, from the core specifications, for every method; exact-state correspondence after every operation on real Function objects', 'Lean 4 proof + differential correspondence'),
     'C09': ('proof', 'model of _try_to_reorder with an arbitrary trigger position; theorems in DDProps/C09; correspondence at every trigger position', 'Lean 4 proof + differential correspondence'),
     'C10': ('proof', 'support/count/pick_iter on the model (DDProps/C10) tied by exhaustive 3-variable correspondence', 'Lean 4 proof + differential correspondence'),
     'C11': ('proof', 'copy between managers on the model (DDProps/C11) tied by correspondence over order pairs', 'Lean 4 proof + differential correspondence'),
@@ -31,8 +33,6 @@ CLAIMS = {
 }
 
 PENDING = {
-    'C05': 'parser model and its correspondence are not built yet in this round (planned: Pratt parser model in Lean)',
-    'C08': 'autoref handle model not built yet in this round',
     'C12': 'dump/load content model not built yet in this round',
     'C15': 'MDD model not built yet in this round',
 }
